@@ -10,15 +10,21 @@ the code has two halves, both run here:
     {thread_pool: Arc<Mutex<Receiver>>, entry_point: env::set_var at start-up} — or a
     process-global mutation in a function reachable from Server::process — is a broken tie
     (component `shared-state-inventory`; the generated list is also a Lean theorem's subject).
- 2. runtime probe of the REAL binary with 1, 2, 4 and 16 workers: a multiset of requests
-    (files, ranges, methods, the form endpoints, 404s, malformed) is answered one at a time
-    (twice, in different orders) and then on simultaneous connections in shuffled order with
-    varying overlap; every concurrent response must equal the serial response byte for byte
-    (Date-Unix-Epoch-Nanos masked, form-echo body lines sorted).
+ 2. runtime probe of the REAL binary with 1, 2, 4 and 16 workers (thorough: also 3, 8, 12) and, under a second configuration
+    (configured CORS list instead of allow-all, no index.html / 404.html / style.css … in the served directory), with one
+    more worker count: a multiset of requests (files, ranges, methods, the form endpoints, 404s, malformed; families of
+    requests that differ in ONE element; requests of exactly the sizes around the read buffer; vlib/gen_c08.py) is
+    answered one at a time on a fresh instance (the reference), then on further fresh instances in other orders
+    (reverse, shuffled with related requests back to back) and then on simultaneous connections: mixed rounds,
+    bursts of one family, related pairs fired together, all large answers together, connections that stay silent
+    after connecting / leave the write side open / read slowly.  Every response must equal the serial reference byte
+    for byte (Date-Unix-Epoch-Nanos masked, form-echo body lines sorted), and no response - the reference included -
+    may contain a client token of another request.
 """
 import os, sys, re, time, shutil, tempfile, hashlib
 from vlib import common as C
 from vlib import realbin as R
+from vlib import gen_c08 as G
 
 sys.path.insert(0, os.path.join(C.VERIF, 'translator'))
 sys.path.insert(0, os.path.join(C.VERIF, 'translator', 'gens'))
@@ -32,7 +38,8 @@ TRUSTED = ['the proof is about a model with no shared mutable state (Rws.Concurr
            '#[cfg(rws_verif)] items removed, name-based call graph); state hidden in dependencies or built by macros is not seen',
            'vlib/realbin.py: loopback client, one connection per request, whole request sent in one piece']
 ASSUMPTIONS = ['`respond` of the model is abstract: what the response IS belongs to the other properties; C08 only says it is a function of (request, tree, configuration)',
-               'the real scheduler is sampled (1, 2, 4, 16 workers; barrier start; shuffled order; random small delays), not enumerated',
+               'the real scheduler is sampled (1, 2, 4, 16 workers; barrier start; shuffled order; random small delays; bursts of one family; silent / half-open / slow connections), not enumerated',
+               'the response a request receives ALONE is taken from the first serial pass on a fresh instance (generation order), not from one fresh process per request',
                'the Date-Unix-Epoch-Nanos value and the line order of form-echo bodies are excluded from the comparison (property text)',
                'the files on disk do not change during the run (the check itself only reads them)']
 
@@ -42,7 +49,8 @@ TS = re.compile(rb'(Date-Unix-Epoch-Nanos: )(\d+)')
 # ----------------------------------------------------------------------------- canonical form of a response
 def canon(raw, form=False):
     if isinstance(raw, Exception): return b'<<' + type(raw).__name__.encode() + b'>>'
-    out = TS.sub(lambda m: m.group(1) + b'#', raw)
+    k = raw.find(b'\r\n\r\n')                    # the timestamp is a header: the body (up to megabytes) is not searched
+    out = TS.sub(lambda m: m.group(1) + b'#', raw) if k < 0 else TS.sub(lambda m: m.group(1) + b'#', raw[:k]) + raw[k:]
     if form:
         k = out.find(b'\r\n\r\n')
         if k >= 0:
@@ -67,7 +75,7 @@ def req(method, target, headers=(), body=b'', version='HTTP/1.1'):
     return out + b'\r\n' + body
 
 def gen_requests(rng, files, n):
-    """n requests as dicts(kind, raw, form, path).  Mostly valid; every one distinct where possible."""
+    """the deterministic families plus n drawn requests as dicts(kind, raw, form, path).  Mostly valid; every one distinct where possible."""
     paths = sorted(files)
     out, seen = [], set()
     def add(kind, raw, form=False, path=None):
@@ -111,6 +119,7 @@ def gen_requests(rng, files, n):
                                         f'--{sb}\r\nContent-Disposition: form-data; name="s{i}"\r\n\r\nv\r\n--{sb}--\r\n'.encode()), form=True)
     guard = 0
     forced = [0, 6, 8, 10, 12, 14, 16, 17, 18, 19] * 4       # at least four attempts of every request class
+    n += len(out)                                            # the families above are never cut
     while len(out) < n and guard < 20 * n:
         guard += 1
         k = forced.pop() if forced else rng.below(20)
@@ -201,14 +210,17 @@ def who_else(got_c, expected_by_index, reqs, me):
     return msg
 
 def adjacent_order(rng, reqs):
-    """a shuffled order in which requests for files with the SAME BASE NAME (in different directories) and
-    requests for the same file with different ranges come back to back — the input class a cache keyed on
-    too little (name without directory, path without range) needs"""
+    """a shuffled order in which requests for files with the SAME BASE NAME (in different directories),
+    requests for the same file with different ranges and the members of one `group` (requests that differ
+    in ONE element: method, Origin, Range, spelling, query, form values …) come back to back — the input
+    class a cache keyed on too little (name without directory, path without range, origin without headers) needs"""
     groups = {}
     for i, r in enumerate(reqs):
+        if r.get('group'):
+            groups.setdefault(('g', r['group']), []).append(i); continue
         m = re.match(rb'(?:GET|HEAD) (/[^ ?#]*)', r['raw'])
         if m and r['kind'] in ('get-file', 'get-range', 'head'):
-            groups.setdefault(m.group(1).rsplit(b'/', 1)[-1], []).append(i)
+            groups.setdefault(m.group(1).rsplit(b'/', 1)[-1].lower(), []).append(i)
     blocks, single = [], []
     for k, g in groups.items():
         if len(g) > 1:
@@ -219,6 +231,244 @@ def adjacent_order(rng, reqs):
     rng.shuffle(units)
     return [i for u in units for i in u]
 
+def families(reqs):
+    """index lists of requests of one kind / one group: the material of the homogeneous bursts"""
+    fam = {}
+    for i, r in enumerate(reqs):
+        fam.setdefault('kind:' + r['kind'].split('-')[0], []).append(i)
+        fam.setdefault('kind=' + r['kind'], []).append(i)
+        if r.get('group'): fam.setdefault('group:' + r['group'], []).append(i)
+    return {k: v for k, v in sorted(fam.items()) if len(v) >= 2}
+
+def check_tokens(res, pr, r, got, N, phase):
+    """no connection ever receives data belonging to another: a token of another request in the answer"""
+    foreign = G.foreign_tokens(r['raw'], got)
+    if foreign:
+        res.fail('cross-talk', pr.case(r, N, dict(phase=phase, foreign=sorted(t.decode('latin1') for t in foreign)[:4])),
+                 C.hx(got[:3000]), None,
+                 f'the answer ({phase}, {N} workers) contains {sorted(foreign)[:3]!r}: client data that THIS request does not carry - it belongs to another connection')
+        return False
+    return True
+
+def exercise(res, pr, rng, docroot, reqs, reference, N, quota, label='', env=None, rounds_override=None):
+    """one fresh instance with N workers: serial passes in three orders, then concurrent rounds of several shapes.
+    Returns the number of concurrent requests compared."""
+    done = 0
+    fam = families(reqs)
+    fam_keys = list(fam)
+    with R.Server(docroot, threads=N, capture_stdout=False, env=env) as srv:
+        # serial passes in different orders: the answer may not depend on what was served before.  The pass in
+        # another order than the reference's runs FIRST on this fresh instance: what the first request of a class
+        # memoised differs from the reference instance (generation order), so order dependence shows
+        orders = [('reverse generation order', list(range(len(reqs) - 1, -1, -1))), ('shuffled order, related requests back to back', adjacent_order(rng, reqs))]
+        if rng.chance(1, 2): orders.reverse()
+        orders.insert(1, ('generation order', None))
+        # quick tier: another order first on every fresh instance; then generation order on the smallest and the largest worker count
+        if pr.tier == 'quick': orders = orders[:2] if (not label and N in (WORKERS[0], WORKERS[-1])) else orders[:1]
+        passes = [(tag, pr.serial(srv, reqs, o)) for tag, o in orders]
+        expected = []
+        for i, r in enumerate(reqs):
+            exp = reference[i]
+            for tag, answers in passes:
+                res.evaluations += 1
+                c = canon(answers[i], r['form'])
+                if c != exp:
+                    res.fail('history-dependence', pr.case(r, N, dict(phase=tag, instance=label or 'default configuration')),
+                             C.hx(c[:3000]), C.hx(exp[:3000]),
+                             f'served ALONE (serial pass in {tag}, {N} workers{label}) the request got a different response than when first served alone on a fresh server: '
+                             'the response depends on earlier requests. ' + who_else(c, reference, reqs, i))
+                    break
+                if not check_tokens(res, pr, r, answers[i], N, 'serial pass in ' + tag): break
+            expected.append(exp)
+        # concurrent rounds
+        rnd = 0
+        while quota > 0 and srv.alive():
+            rnd += 1
+            # every instance sees every shape: a mixed round, bursts of one family, related pairs, a mixed round with connection kinds …
+            shape = ['mix', 'big', 'burst', 'pair', 'kinds', 'burst', 'pair', 'burst'][(rnd - 1) % 8] if (pr.tier == 'quick' or rnd <= 8) else \
+                    rng.choice(['mix', 'mix', 'kinds', 'kinds', 'burst', 'burst', 'pair', 'big'])
+            if shape == 'big' and N == 1: shape = 'burst'          # one worker never has two answers under way
+            conns = rng.choice([2, 4, 8, 16, 32, 64])
+            delay = 0
+            if shape in ('mix', 'kinds'):
+                top = min(len(reqs), 90) if pr.tier == 'quick' else len(reqs)
+                m = min(quota, top if rng.chance(1, 3) else rng.range(min(50, top), top))
+                idx = list(range(len(reqs))); rng.shuffle(idx)
+                # duplicates of the same request in flight at once are part of "any multiset"
+                idx = idx[:m] if rng.chance(2, 3) else [rng.choice(idx[:max(8, m // 4)]) for _ in range(m)]
+            elif shape == 'big':
+                # the LARGE answers (beyond one 64 KiB piece, beyond the socket buffers) all at once, every other one read slowly: the
+                # workers sit in write next to one another; a few short requests in between
+                large = sorted((i for i in range(len(reqs)) if len(expected[i]) > 60000), key=lambda i: -len(expected[i]))
+                top, nxt = large[:8], large[8:]
+                rng.shuffle(nxt)
+                small = [rng.below(len(reqs)) for _ in range(6)]
+                k = 6 if pr.tier == 'quick' else 12
+                idx = top * k + nxt[:8] * 2 + small
+                rng.shuffle(idx)
+                m = len(idx)
+                conns = rng.choice([8, 16, 32])
+            elif shape == 'burst':
+                # many requests of ONE family at once (form posts only, ranges of one file only, preflights only, errors only …):
+                # a race in something only that family uses needs two of them in the same microseconds
+                g = fam[rng.choice(fam_keys)]
+                m = min(max(quota, 8), rng.choice([32, 40, 48] if pr.tier == 'quick' else [32, 64, 96]))
+                idx = [rng.choice(g) for _ in range(m)]
+                conns = rng.choice([16, 32, 64])
+            else:
+                # two or three RELATED requests, each many times, all at once
+                g = fam[rng.choice([k for k in fam_keys if k.startswith('group:')] or fam_keys)]
+                pick = [rng.choice(g) for _ in range(rng.range(2, 3))]
+                m = min(max(quota, 8), 32 if pr.tier == 'quick' else 48)
+                idx = [pick[j % len(pick)] for j in range(m)]
+                conns = rng.choice([8, 32, 48])
+            if shape == 'mix':
+                delay = rng.choice([0, 0, 1, 3])
+                got = R.run_concurrent(srv, [reqs[i]['raw'] for i in idx], conns=conns, rng=rng.fork(f'd{N}-{rnd}'), max_delay_ms=delay, timeout=20)
+            else:
+                # connection kinds: silent for a while after connecting (the worker sits in read while others are served), write side
+                # left open, slow reader of a large answer (the worker sits in write), pauses
+                holds = [min(6, max(1, 24 // max(1, 17 - N)))] if N > 1 else [3]
+                jr = rng.fork(f'k{N}-{rnd}')
+                jobs = [dict(raw=reqs[i]['raw'], **G.conn_kind(jr, reqs[i]['raw'], len(expected[i]), holds)) for i in idx]
+                if shape == 'big':
+                    for k, j in enumerate(jobs):
+                        if len(expected[idx[k]]) > 60000 and j['conn'] == 'plain' and k % 2 == 0: j['conn'] = 'slow'
+                for j in jobs: res.count('connection ' + j['conn'])
+                got = G.run_jobs(srv, jobs, conns=conns, timeout=20)
+            res.count('round ' + shape)
+            quota -= m; done += m
+            res.count(f'workers={N}{label}', m)
+            for i, g in zip(idx, got):
+                r = reqs[i]
+                res.evaluations += 1; res.programs += 1
+                res.count('kind ' + r['kind'])
+                res.distinct.add(hashlib.blake2b(r['raw'] + bytes([N]), digest_size=8).digest())
+                c = canon(g, r['form'])
+                if c == expected[i]:
+                    check_tokens(res, pr, r, g, N, 'concurrent')
+                    continue
+                if isinstance(g, Exception) or not g:
+                    res.fail('no-response-under-concurrency', pr.case(r, N, dict(conns=conns, round=rnd, shape=shape, error=repr(g))),
+                             repr(g), C.hx(expected[i][:2000]),
+                             f'with {conns} simultaneous connections on {N} workers{label} the connection got no (complete) response; alone it is answered')
+                else:
+                    res.fail('cross-talk', pr.case(r, N, dict(conns=conns, round=rnd, shape=shape, delay_ms=delay)),
+                             C.hx(c[:6000]), C.hx(expected[i][:6000]),
+                             f'with {conns} simultaneous connections on {N} workers{label} (round of shape {shape}) the response differs from the response to the same request served alone. '
+                             + who_else(c, expected, reqs, i))
+            if len(res.failures) > 50: break
+        alive = srv.alive()
+    if not alive:
+        res.fail('server-terminated', dict(phase='concurrent', workers=N, status=srv.status), (srv.stderr() or '')[-600:], None,
+                 f'the server process ({N} workers{label}) terminated during the concurrent rounds: {srv.status}')
+    return done
+
+def fresh_passes(res, pr, rng, docroot, reqs, reference, N, k, label='', env=None):
+    """k more FRESH instances, one serial pass each in a newly drawn order (no concurrent rounds): whatever the first request of a
+    class leaves behind for the others shows only on an instance where another member of the class comes first"""
+    for j in range(k):
+        order = adjacent_order(rng, reqs)
+        if rng.chance(1, 2): order.reverse()
+        with R.Server(docroot, threads=N, capture_stdout=False, env=env) as srv:
+            answers = pr.serial(srv, reqs, order)
+        for i, r in enumerate(reqs):
+            res.evaluations += 1
+            c = canon(answers[i], r['form'])
+            if c != reference[i]:
+                res.fail('history-dependence', pr.case(r, N, dict(phase='fresh instance, drawn order #%d' % (j + 1), instance=label or 'default configuration')),
+                         C.hx(c[:3000]), C.hx(reference[i][:3000]),
+                         f'served ALONE (serial pass in a drawn order on a fresh instance, {N} workers{label}) the request got a different response than when first served alone '
+                         'on another fresh server: the response depends on earlier requests. ' + who_else(c, reference, reqs, i))
+            else:
+                check_tokens(res, pr, r, answers[i], N, 'serial pass on a fresh instance')
+        if len(res.failures) > 50: break
+
+def alone_probes(res, pr, rng, docroot, reqs, reference, k, label='', env=None):
+    """the property's own words: the response a request receives ALONE.  k requests (the near misses of their families first, then
+    members of one-element groups, drawn) are each the FIRST AND ONLY request of a fresh instance; the answer must be the reference's"""
+    import threading
+    near = [i for i, r in enumerate(reqs) if r.get('near')]
+    rest = [i for i, r in enumerate(reqs) if r.get('group') and not r.get('near')]
+    rng.shuffle(near); rng.shuffle(rest)
+    pick = (near + rest)[:k]
+    threads = [rng.choice([1, 2, 16]) for _ in pick]
+    got = [None] * len(pick)
+    nxt, lock = [0], threading.Lock()
+    def work():
+        while True:
+            with lock:
+                j = nxt[0]; nxt[0] += 1
+            if j >= len(pick): return
+            try:
+                with R.Server(docroot, threads=threads[j], capture_stdout=False, env=env) as srv:
+                    got[j] = srv.request(reqs[pick[j]]['raw'], timeout=20)
+            except Exception as e:      # noqa
+                got[j] = e
+    ts = [threading.Thread(target=work, daemon=True) for _ in range(min(6, len(pick)))]
+    for t in ts: t.start()
+    for t in ts: t.join()
+    for j, i in enumerate(pick):
+        r = reqs[i]
+        res.evaluations += 1
+        res.count('served all alone on a fresh instance')
+        if isinstance(got[j], Exception) or not got[j]:
+            # the machine is shared: an instance that did not start or a connection that timed out is tried once more, then left out
+            try:
+                with R.Server(docroot, threads=threads[j], capture_stdout=False, env=env) as srv:
+                    got[j] = srv.request(r['raw'], timeout=20)
+            except Exception as e:      # noqa
+                got[j] = e
+            if isinstance(got[j], Exception) or not got[j]:
+                res.notes.append('alone probe left out (no answer from a fresh instance, twice): %r %r' % (r['raw'][:60], got[j])); continue
+        c = canon(got[j], r['form'])
+        if c != reference[i]:
+            res.fail('history-dependence', pr.case(r, threads[j], dict(phase='the only request of a fresh instance', instance=label or 'default configuration')),
+                     C.hx(reference[i][:3000]), C.hx(c[:3000]),
+                     f'the response in the reference pass (served after other requests{label}) differs from the response the request receives as the FIRST AND ONLY '
+                     f'request of a fresh instance ({threads[j]} workers; only the start-up probe, a connection without a request, came before): the response depends on earlier requests.')
+        else:
+            check_tokens(res, pr, r, got[j], threads[j], 'the only request of a fresh instance')
+
+def qualify(res, pr, docroot, reqs, files, env=None, label=''):
+    """serial answers of a fresh 16-worker instance: the reference.  Requests the server does not answer at all (handler
+    panic: the worker dies, properties C06/C12) cannot be compared and would wedge a 1-worker server: they are left out."""
+    with R.Server(docroot, threads=16, capture_stdout=False, env=env) as s0:
+        q = pr.serial(s0, reqs)
+        alive0 = s0.alive()
+    if not alive0:
+        res.fail('server-terminated', dict(phase='qualification', status=s0.status), s0.stderr()[-400:], None,
+                 'the server process terminated while answering single requests one at a time')
+        return None, None
+    keep = [i for i, a in enumerate(q) if not isinstance(a, Exception) and a]
+    ks = set(keep)
+    for i, a in enumerate(q):
+        if i not in ks:
+            res.count('excluded: no response even alone (' + reqs[i]['kind'] + ')')
+            res.notes.append('excluded from the multiset (no response when served alone — C06/C12 territory): %r' % reqs[i]['raw'][:80])
+    kept = [reqs[i] for i in keep]
+    reference = [canon(q[i], reqs[i]['form']) for i in keep]
+    for r, a in zip(kept, [q[i] for i in keep]):
+        check_tokens(res, pr, r, a, 16, 'first serial pass on a fresh server' + label)
+        # independent oracle on the serial answers: a plain GET of a regular file returns that file's bytes
+        if r['kind'] == 'get-file' and status_of(a) == 200 and r['path'] in files:
+            res.evaluations += 1
+            if body_of(a) != files[r['path']]:
+                other = [p for p, c in files.items() if c == body_of(a) and p != r['path']]
+                res.fail('cross-talk' if other else 'serial-body-is-not-the-file', pr.case(r, 16, dict(phase='serial')),
+                         C.hx(a[:2000]), C.hx(files[r['path']][:2000]),
+                         f'GET {r["path"]} served alone returned a body that is not the content of that file' +
+                         (f' — it is the content of {other[0]}' if other else ''))
+    return kept, reference
+
+RESTRICTED = {'RWS_CONFIG_CORS_ALLOW_ALL': 'false',
+              'RWS_CONFIG_CORS_ALLOW_ORIGINS': 'http://allowed.example,https://foo.example,http://allowed.example:8080',
+              'RWS_CONFIG_CORS_ALLOW_METHODS': 'GET,PUT,POST',
+              'RWS_CONFIG_CORS_ALLOW_HEADERS': 'Content-Type,X-Configured',
+              'RWS_CONFIG_CORS_ALLOW_CREDENTIALS': 'true',
+              'RWS_CONFIG_CORS_EXPOSE_HEADERS': 'X-Exposed',
+              'RWS_CONFIG_CORS_MAX_AGE': '600'}
+
 def run_probe(res, tier, seed, only_workers=None, rounds_override=None, log=None):
     rng = C.Rng(seed).fork('c08-probe')
     ok, out = R.build()
@@ -226,102 +476,56 @@ def run_probe(res, tier, seed, only_workers=None, rounds_override=None, log=None
         res.disagree('cargo build --release of the real binary', out[-600:], 'builds', 'real-binary-build')
         return
     docroot = tempfile.mkdtemp(prefix='rws-c08-')
+    docroot_b = tempfile.mkdtemp(prefix='rws-c08b-')
     pr = Probe(res, rng, tier)
     try:
         files = R.write_docroot(docroot, rng.fork('tree'), n_files=40 if tier == 'quick' else 120)
-        n_req = 160 if tier == 'quick' else 400
+        info = G.extend_docroot(docroot, files, rng.fork('tree+'), tier)
+        n_req = 40 if tier == 'quick' else 400
         reqs = gen_requests(rng.fork('reqs'), files, n_req)
-        total_target = 2000 if tier == 'quick' else 100000
-        per_worker = total_target // len(WORKERS)
+        have = {r['raw'] for r in reqs}
+        extra = [r for r in G.extra_requests(rng.fork('reqs+'), files, info, tier) if r['raw'] not in have]
+        if tier == 'quick': extra = thin(rng.fork('thin'), extra, 300)
+        reqs += extra
+        total_target = 1600 if tier == 'quick' else 100000
+        workers = list(WORKERS) + ([] if tier == 'quick' else [3, 8, 12])
+        per_worker = total_target // len(workers)
         res.extra['probe'] = dict(docroot_files=len(files), docroot_bytes=sum(len(v) for v in files.values()),
-                                  multiset=len(reqs), workers=WORKERS, target_concurrent_requests=total_target)
+                                  multiset=len(reqs), workers=workers, target_concurrent_requests=total_target)
 
-        # ---- qualification on a 16-worker instance: requests the server does not answer at all (handler
-        # panic: the worker dies, properties C06/C12) cannot be compared and would wedge a 1-worker server
-        with R.Server(docroot, threads=16, capture_stdout=False) as s0:
-            q = pr.serial(s0, reqs)
-            alive0 = s0.alive()
-        if not alive0:
-            res.fail('server-terminated', dict(phase='qualification', status=s0.status), s0.stderr()[-400:], None,
-                     'the server process terminated while answering single requests one at a time')
-            return
-        keep = [i for i, a in enumerate(q) if not isinstance(a, Exception) and a]
-        for i, a in enumerate(q):
-            if i not in set(keep):
-                res.count('excluded: no response even alone (' + reqs[i]['kind'] + ')')
-                res.notes.append('excluded from the multiset (no response when served alone — C06/C12 territory): %r' % reqs[i]['raw'][:80])
-        reqs = [reqs[i] for i in keep]
-        reference = [canon(q[i], reqs[k]['form']) for k, i in enumerate(keep)]
+        reqs, reference = qualify(res, pr, docroot, reqs, files)
+        if reqs is None: return
 
-        # independent oracle on the serial answers: a plain GET of a regular file returns that file's bytes
-        for r, a in zip(reqs, [q[i] for i in keep]):
-            if r['kind'] == 'get-file' and status_of(a) == 200 and r['path'] in files:
-                res.evaluations += 1
-                if body_of(a) != files[r['path']]:
-                    other = [p for p, c in files.items() if c == body_of(a) and p != r['path']]
-                    res.fail('cross-talk' if other else 'serial-body-is-not-the-file', pr.case(r, 16, dict(phase='serial')),
-                             C.hx(a[:2000]), C.hx(files[r['path']][:2000]),
-                             f'GET {r["path"]} served alone returned a body that is not the content of that file' +
-                             (f' — it is the content of {other[0]}' if other else ''))
-
+        if only_workers is None: alone_probes(res, pr, rng.fork('alone'), docroot, reqs, reference, 8 if tier == 'quick' else 150)
         done = 0
-        for N in (only_workers or WORKERS):
-            with R.Server(docroot, threads=N, capture_stdout=False) as srv:
-                # two serial passes in different orders: the answer may not depend on what was served before
-                order2 = adjacent_order(rng, reqs)
-                # the shuffled pass runs FIRST on this fresh instance: what was memoised by the first request of a
-                # class differs from the reference instance (generation order), so order dependence shows
-                s2 = pr.serial(srv, reqs, order2)
-                s1 = pr.serial(srv, reqs)
-                expected = []
-                for i, r in enumerate(reqs):
-                    c1, c2 = canon(s1[i], r['form']), canon(s2[i], r['form'])
-                    res.evaluations += 2
-                    exp = reference[i]
-                    for tag, c, rawresp in (('first serial pass (generation order)', c1, s1[i]), ('second serial pass (shuffled order)', c2, s2[i])):
-                        if c != exp:
-                            res.fail('history-dependence', pr.case(r, N, dict(phase=tag)),
-                                     C.hx(c[:3000]), C.hx(exp[:3000]),
-                                     f'served ALONE ({tag}, {N} workers) the request got a different response than when first served alone on a fresh server: '
-                                     'the response depends on earlier requests. ' + who_else(c, reference, reqs, i))
-                            break
-                    expected.append(exp)
-                # concurrent rounds
-                quota = per_worker if rounds_override is None else rounds_override * len(reqs)
-                rnd = 0
-                while quota > 0 and srv.alive():
-                    rnd += 1
-                    m = min(quota, len(reqs) if rng.chance(2, 3) else rng.range(50, len(reqs)))
-                    idx = list(range(len(reqs))); rng.shuffle(idx)
-                    # duplicates of the same request in flight at once are part of "any multiset"
-                    idx = idx[:m] if rng.chance(2, 3) else [rng.choice(idx[:max(8, m // 4)]) for _ in range(m)]
-                    conns = rng.choice([2, 4, 8, 16, 32, 64])
-                    delay = rng.choice([0, 0, 1, 3])
-                    got = R.run_concurrent(srv, [reqs[i]['raw'] for i in idx], conns=conns, rng=rng.fork(f'd{N}-{rnd}'), max_delay_ms=delay, timeout=20)
-                    quota -= m; done += m
-                    res.count(f'workers={N}', m)
-                    for i, g in zip(idx, got):
-                        r = reqs[i]
-                        res.evaluations += 1; res.programs += 1
-                        res.count('kind ' + r['kind'])
-                        res.distinct.add(hashlib.blake2b(r['raw'] + bytes([N]), digest_size=8).digest())
-                        c = canon(g, r['form'])
-                        if c == expected[i]: continue
-                        if isinstance(g, Exception) or not g:
-                            res.fail('no-response-under-concurrency', pr.case(r, N, dict(conns=conns, round=rnd, error=repr(g))),
-                                     repr(g), C.hx(expected[i][:2000]),
-                                     f'with {conns} simultaneous connections on {N} workers the connection got no (complete) response; alone it is answered')
-                        else:
-                            res.fail('cross-talk', pr.case(r, N, dict(conns=conns, round=rnd, delay_ms=delay)),
-                                     C.hx(c[:6000]), C.hx(expected[i][:6000]),
-                                     f'with {conns} simultaneous connections on {N} workers the response differs from the response to the same request served alone. '
-                                     + who_else(c, expected, reqs, i))
-                    if len(res.failures) > 50: break
-                alive = srv.alive()
-            if not alive:
-                res.fail('server-terminated', dict(phase='concurrent', workers=N, status=srv.status), (srv.stderr() or '')[-600:], None,
-                         f'the server process ({N} workers) terminated during the concurrent rounds: {srv.status}')
+        for N in (only_workers or workers):
+            quota = per_worker if rounds_override is None else rounds_override * len(reqs)
+            done += exercise(res, pr, rng, docroot, reqs, reference, N, quota)
             if len(res.failures) > 50: break
+
+        # ---- the other configuration: a configured CORS list instead of allow-all (the per-request reads of the process
+        # environment take the other branch), and a served directory WITHOUT index.html / 404.html / style.css / script.js /
+        # favicon.svg (the built-in pages); a worker count that is not in WORKERS
+        if only_workers is None and len(res.failures) <= 50:
+            shutil.rmtree(docroot_b, ignore_errors=True)
+            shutil.copytree(docroot, docroot_b, symlinks=True)
+            for pg in G.PAGES:
+                try: os.remove(os.path.join(docroot_b, pg))
+                except OSError: pass
+            sel = [r for r in reqs if r['kind'] in ('preflight', 'cors-simple', 'cors-related-origin', 'options', 'options-same-origin', 'origin-variant', 'method-variant',
+                                                    'get-builtin-or-dir', 'error-path', 'long-origin', 'long-request-headers', 'header-repeated', 'not-found')
+                   or (r['kind'] == 'lookup-step' and any(r['raw'].startswith(b'GET /' + pg.encode()) for pg in G.PAGES))]
+            rest = [r for r in reqs if r not in sel]
+            rng.shuffle(rest)
+            sel += rest[:60 if tier == 'quick' else 400]
+            if tier == 'quick': sel = thin(rng.fork('thin-b'), sel, 160)
+            label = ' (configured CORS list, built-in pages)'
+            sel, ref_b = qualify(res, pr, docroot_b, sel, {}, env=RESTRICTED, label=label)
+            if sel is not None:
+                nb = rng.choice([3, 5, 8])
+                alone_probes(res, pr, rng.fork('alone-b'), docroot_b, sel, ref_b, 8 if tier == 'quick' else 100, label=label, env=RESTRICTED)
+                fresh_passes(res, pr, rng, docroot_b, sel, ref_b, rng.choice([1, 2, 16]), 2 if tier == 'quick' else 6, label=label, env=RESTRICTED)
+                done += exercise(res, pr, rng, docroot_b, sel, ref_b, nb, 250 if tier == 'quick' else 20000, label=label, env=RESTRICTED)
         res.extra['probe']['concurrent_requests_compared'] = done
         res.extra['probe']['probe_wall_s'] = round(time.time() - pr.t_start, 1)
         if reqs:
@@ -332,6 +536,31 @@ def run_probe(res, tier, seed, only_workers=None, rounds_override=None, log=None
             res.sample(dict(request=reqs[k]['raw'].decode('latin1')[:200], canonical_body=body_of(reference[k]).decode('latin1')[:120]))
     finally:
         shutil.rmtree(docroot, ignore_errors=True)
+        shutil.rmtree(docroot_b, ignore_errors=True)
+
+def thin(rng, reqs, cap):
+    """the quick tier keeps every KIND and every GROUP (two members of every kind x group at least, and what is marked `must`); which
+    members, and which others up to `cap`, is drawn from the seed - the free places go to the kinds by size (less than proportionally)"""
+    if len(reqs) <= cap: return reqs
+    by = {}
+    for i, r in enumerate(reqs):
+        by.setdefault((r['kind'], r.get('group')), []).append(i)
+    keep = set()
+    pools, taken = {}, {}
+    for k in sorted(by, key=str):
+        g = by[k][:]; rng.shuffle(g)
+        first = set(g[:2]) | {i for i in g if reqs[i].get('must')}
+        keep.update(first)
+        pools.setdefault(k[0], []).extend(i for i in g if i not in first)
+        taken[k[0]] = taken.get(k[0], 0) + len(first)
+    for k in pools: rng.shuffle(pools[k])
+    size = {k: len(pools[k]) + taken[k] for k in pools}
+    while len(keep) < cap:
+        live = [k for k in sorted(pools) if pools[k]]
+        if not live: break
+        k = max(live, key=lambda k: (size[k] ** 0.6 / (taken[k] + 1.0), k))      # highest averages: more places for the larger kinds, less than proportionally
+        keep.add(pools[k].pop()); taken[k] += 1
+    return [r for i, r in enumerate(reqs) if i in keep]
 
 # ----------------------------------------------------------------------------- entry points
 def inventory_part(res):
